@@ -181,6 +181,33 @@ func (s *State) Assume(t *Term) {
 			s.Dead = true
 		}
 	}
+	// the negation of a conjunction whose conjuncts are all already assumed (or a disjunction whose disjuncts are all
+	// already refuted) is contradictory
+	if t.Op == "not" && t.Args[0].Op == "and" || t.Op == "or" {
+		in := map[*Term]bool{}
+		for _, p := range s.PC {
+			in[p] = true
+		}
+		all := true
+		if t.Op == "or" {
+			for _, d := range t.Args {
+				if !in[Not(d)] {
+					all = false
+					break
+				}
+			}
+		} else {
+			for _, c := range t.Args[0].Args {
+				if !in[c] {
+					all = false
+					break
+				}
+			}
+		}
+		if all {
+			s.Dead = true
+		}
+	}
 	s.PC = append(s.PC, t)
 }
 
@@ -1426,6 +1453,17 @@ func (fx *FnExec) strEq(a, b StrV) *Term {
 		}
 		return And(cs...)
 	}
+	if a.Max > 0 && a.Max <= 16 && b.Max > 0 && b.Max <= 16 {
+		m := a.Max
+		if b.Max < m {
+			m = b.Max
+		}
+		cs := []*Term{Eq(a.Len, b.Len)}
+		for i := uint64(0); i < m; i++ {
+			cs = append(cs, Implies(ULt(BV64(i), a.Len), Eq(a.C.Elem(Add(a.Off, BV64(i))), b.C.Elem(Add(b.Off, BV64(i))))))
+		}
+		return And(cs...)
+	}
 	// unknown-length comparison: abstract by an uninterpreted predicate that at least implies equal length
 	fx.Cx.Note("string equality with two symbolic lengths abstracted (fresh boolean implying equal lengths)")
 	e := fx.Cx.Fresh("streq", Bool)
@@ -1779,6 +1817,11 @@ func (fx *FnExec) builtin(fr *Frame, st *State, c *ssa.Call, name string, args [
 		}
 		da := fx.arrayOf(st, dst.Obj, dst.Path)
 		nc := CopyC(da.C, dst.Off, sc, soff, n)
+		if dst.Off.IsConst() && dst.Off.Val == 0 && soff.IsConst() && soff.Val == 0 && n == da.Len && len(dst.Path) == 0 {
+			// the whole backing array is overwritten from the start of the source: same content (elements beyond
+			// the array length are never read)
+			nc = sc
+		}
 		if fx.OnStore != nil {
 			fx.OnStore(fx, st, dst.Obj, dst.Path, fx.siteName(fr, c, "call"))
 		}
